@@ -104,9 +104,32 @@ def nest(path, leaf):
         leaf = M([(k, leaf)])
     return leaf
 
+# values that compare equal in python but are different YAML scalars (bool / int / float): a stage that restates an entry
+# with such a twin must still win (seeded change S4-C02: "equal, nothing to do" shortcuts)
+EQ_TWINS = {(int, 0): [False, 0.0], (int, 1): [True, 1.0], (bool, False): [0, 0.0], (bool, True): [1, 1.0],
+            (float, 0.0): [0, False], (float, 1.0): [1, True], (int, 2): [2.0], (int, 7): [7.0], (int, -3): [-3.0]}
+P_RESTATE = 0.15    # probability that one entry of an override restates a whole subtree of the base
+
+def restate(rng, raw, keep_tags):
+    """copy of a subtree in which scalars are now and then replaced by an ==-equal value of another type"""
+    n = {k: v for k, v in raw.items() if keep_tags or k not in ('t', 'kw', 'txt')}
+    if 't' in n and n['t'].get('k') not in (None, 'plain') :
+        return copy.deepcopy(raw)                      # operator / function / dynamic nodes: verbatim
+    if 's' in n:
+        if 'l' in n['s'] and rng.random() < 0.5:
+            v = sc_py(n['s']['l'])
+            tw = EQ_TWINS.get((type(v), v))
+            if tw:
+                n = dict(n, s={'l': S(rng.choice(tw))['s']['l']})
+        return n
+    if 'q' in n:
+        return dict(n, q=[restate(rng, c, keep_tags) for c in n['q']])
+    return dict(n, m=[[k, restate(rng, c, keep_tags)] for k, c in n['m']])
+
 def gen_override(rng, voc, base, depth=3, p_tag=0.3):
     """a later stage derived from `base`: overrides a few of its paths, adds some new content"""
     ps = [p for p, _ in paths_of(base) if p]
+    subs = {p: n for p, n in paths_of(base) if p}
     items = {}
     def put(path, val):
         cur = items
@@ -127,7 +150,10 @@ def gen_override(rng, voc, base, depth=3, p_tag=0.3):
                 p = p + (rng.choice(STR_KEYS + [0, 5]),)
         else:
             p = (rng.choice(STR_KEYS),)
-        put(p, gen_value(rng, voc, rng.randrange(0, depth), p_tag))
+        if p in subs and rng.random() < P_RESTATE:
+            put(p, restate(rng, subs[p], rng.random() < 0.5))
+        else:
+            put(p, gen_value(rng, voc, rng.randrange(0, depth), p_tag))
     def build(d):
         out = []
         for k, v in d.items():
